@@ -61,7 +61,7 @@ package kex
 //@   callassert KDF#1: @secret BigOf(bytes(arg1)) == BigVal(u(secretInt))
 //@   callassert KDF#1: @width len(arg1) == ByteLenOf(BigVal(u(p)))
 //@   callassert Cmp#1: @received u(arg0) == u(other)
-//@   callassert Cmp#*: @subject u(arg0) == u(other) || u(arg0) == u(secretInt)
+//@   callassert Cmp#*: @subject ? u(arg0) == u(other) || u(arg0) == u(secretInt)
 //@   callsites Cmp 4
 //@   callassert Exp#1: @operands u(arg1) == u(other) && u(arg2) == u(own) && u(arg3) == u(p)
 //@   callsites Exp 1
